@@ -47,7 +47,7 @@ func Verif_C14_pick() {
 			_, isReady := ready[c.conn]
 			verifAssert(isReady, "Build: every connection is a ready SubConn")
 			verifAssert(c.inflight == 0, "Build: nothing in flight")
-			verifAssert(c.success <= initSuccess, "Build: success score within [0,1000]")
+			verifAssert(c.success <= verifMaxScore, "Build: success score within [0,1000]")
 		}
 		for i, c := range p.conns {
 			for j := 0; j < i; j++ {
@@ -69,8 +69,9 @@ func Verif_C14_pick() {
 	verifClock = verifTime("now")
 	inflight0 := make([]int64, n)
 	requests0 := make([]int64, n)
+	pick0 := make([]int64, n)
 	for i, c := range conns {
-		inflight0[i], requests0[i] = c.inflight, c.requests
+		inflight0[i], requests0[i], pick0[i] = c.inflight, c.requests, c.pick
 	}
 
 	res, err := p.Pick(balancer.PickInfo{})
@@ -89,6 +90,17 @@ func Verif_C14_pick() {
 		verifAssert(c.requests == requests0[i]+d, "Pick: request count +1 on the picked connection only")
 	}
 	verifAssert(res.Done != nil, "Pick returns a completion callback")
+	verifAssert(conns[k].pick == int64(verifClock), "Pick stamps the picked connection with the time of the pick")
+	if n == 2 {
+		// with two connections both are candidates of every pick: one that has
+		// not been picked for more than a second gets this pick (n >= 3: the
+		// candidates are a random pair, "about once per second" is a frequency)
+		const second = int64(1000000000)
+		stale0 := int64(verifClock)-pick0[0] > second
+		stale1 := int64(verifClock)-pick0[1] > second
+		staleK := int64(verifClock)-pick0[k] > second
+		verifAssert(verifImplies(verifOr(stale0, stale1), staleK), "Pick (2 connections): a connection not picked for more than a second is picked")
+	}
 	switch n {
 	case 1:
 		verifReach("pick-1")
@@ -150,8 +162,9 @@ func Verif_C14_choose() {
 	verifAssert(got.pick == int64(now), "choose refreshes the pick stamp of the chosen connection")
 	verifAssert(other.pick == otherPick0, "choose leaves the pick stamp of the other connection alone")
 
-	stale1 := int64(now)-pick1 > int64(forcePick)
-	stale2 := int64(now)-pick2 > int64(forcePick)
+	const second = int64(1000000000) // the statement's "about once per second" (not the code's constant)
+	stale1 := int64(now)-pick1 > second
+	stale2 := int64(now)-pick2 > second
 	gotStale, otherStale := stale1, stale2
 	gotLoad, otherLoad := l1, l2
 	if got == c2 {
